@@ -1120,6 +1120,34 @@ def rule_t4(P):
                              "msg": f"{adt}.{field} is filled with a name id minted by NameBuilder::add_anon_group, but Compilation::remap_name_ids never adjusts that field: "
                                     f"whenever the ids are shifted (the font already uses name ids >= 256, e.g. fvar instance names) it keeps the old id, which then names no record or the wrong one",
                              "loc": loc, "detail": {}})
+    # sibling agreement inside remap_name_ids: every field it rewrites takes its new value from the one closure that knows which
+    # ids must stay (`adjust_id`: reserved ids and the 0 placeholder are not shifted) - an inline `id + offset` shifts them too
+    adjust = [k for k in remap if any(s_["kind"] == "call" and any(t.endswith("::is_reserved") for t in s_["targets"]) for s_ in P.iter_sites(k))]
+    if len(adjust) != 1:
+        raise E5Error(f"T4: the adjust closure of remap_name_ids was not found: {adjust}")
+    aspan = P.bodies[adjust[0]].get("span", "")
+    amark = f"{aspan.split(':')[0]}:{aspan.rsplit(':', 1)[-1]}:"
+    for k in sorted(remap):
+        if k == adjust[0]:
+            continue
+        b = P.bodies[k]
+        writes = sorted({e.split(":")[1] for blk in b["blocks"] for st in blk["s"] if len(st["d"]) > 1 for e in st["d"][1:]
+                         if isinstance(e, str) and e.startswith("f:") and ("name_id" in e or "name_entry" in e)})
+        if not writes:
+            continue
+        uses_adjust = False
+        for blk in b["blocks"]:
+            t = blk["t"]
+            if t["t"] != "call" or blk["cl"]:
+                continue
+            kk = t["f"].get("k") or {}
+            if (kk.get("res") == adjust[0]) or any(amark in g for g in (kk.get("ga") or [])):
+                uses_adjust = True
+        obl.append({"rule": "T4", "inst": f"{norm_fn(k)} rewrites {','.join(writes)} through adjust_id", "ok": uses_adjust})
+        if not uses_adjust:
+            findings.append({"rule": "T4", "key": f"T4|inline-shift|{norm_fn(k)}|{','.join(writes)}",
+                             "msg": f"{k} rewrites the name id field(s) {writes} without going through remap_name_ids' adjust closure: ids that must not move (reserved ids below 256, the 0 "
+                                    f"placeholder) are shifted like minted ones - e.g. `ElidedFallbackNameID 2;` becomes 2 + offset and names another record", "loc": P.body_file_line(k), "detail": {}})
     if n_src < 8 or len(adjusted) < 8:
         raise E5Error(f"T4: too few minting sites ({n_src}) or adjusted fields ({len(adjusted)})")
     return findings, obl, {"t4_mint_sites": n_src, "t4_minted_fields": len(minted), "t4_adjusted_fields": len(adjusted)}
@@ -1397,3 +1425,39 @@ def rule_n5(P):
                                 f"platform/encoding/language/name id (e.g. the English family or style name disappears because the feature file sets the same name id for another language), "
                                 f"and fvar/STAT then refer to a name that is not the source's", "loc": P.site_loc(key, (dropping or unknown or [(b['blocks'][0]['t']['l'], '')])[0][0]), "detail": {}})
     return findings, obl, {"n5_merge_chain": [n for _, n in seen_calls]}
+
+
+def rule_p6(P, tables):
+    """'Every intermediate item reads back equal': derived Serialize/Deserialize are structural (every field, in order, both ways).
+    A hand-written pair is a second, independent description of the type's persisted form and is where a Vec becomes a map, a float
+    loses precision or a variant collapses.  Census: hand-written serde impls on types of the IR/BE crates are listed with the
+    reason the pair round-trips; a new one is a violation until it has been read."""
+    from common import norm_fn
+    findings, obl = [], []
+    allowed = {e["type"]: e for e in tables.get("e5_tables", {}).get("handwritten_serde_allowed", [])}
+    seen = {}
+    n_derived = 0
+    for im in P.impls:
+        tr = im.get("trait") or ""
+        if not (tr.endswith("::Serialize") or tr.endswith("::Deserialize")) or "serde" not in tr:
+            continue
+        if im.get("crate") not in ("fontir", "fontbe", "fontdrasil"):
+            continue
+        if im.get("exp"):
+            n_derived += 1
+            continue
+        ty = (im.get("self") or "").split("<")[0]
+        seen.setdefault(ty, []).append((tr.rsplit("::", 1)[-1], im.get("span")))
+    for ty, impls in sorted(seen.items()):
+        ok = ty in allowed
+        obl.append({"rule": "P6", "inst": f"{ty} has hand-written {'/'.join(sorted({k for k, _ in impls}))}: {(allowed.get(ty) or {}).get('reason', 'NOT AUDITED')[:90]}", "ok": ok})
+        if not ok:
+            findings.append({"rule": "P6", "key": f"P6|{ty}", "msg": f"{ty} is persisted through a hand-written {'/'.join(sorted({k for k, _ in impls}))} impl ({impls[0][1]}) that nobody has checked for "
+                             f"round-tripping: unlike a derive it can merge, reorder, round or drop parts of the value (a Vec written as a map loses repeated keys), so the item "
+                             f"read back from the build directory need not equal the one in memory", "loc": impls[0][1] or "", "detail": {}})
+    for ty in allowed:
+        if ty not in seen:
+            findings.append({"rule": "P6", "key": f"P6|stale|{ty}", "msg": f"audited hand-written serde entry for {ty} matches nothing any more; remove it", "loc": "tables/e5_tables.json", "detail": {}})
+    if n_derived < 40:
+        raise E5Error(f"P6: only {n_derived} derived serde impls seen in the IR/BE crates")
+    return findings, obl, {"p6_handwritten_serde_types": len(seen), "p6_derived_serde_impls": n_derived}
